@@ -220,6 +220,40 @@ def mixed_formula(rng):
     if w == "XNor": return {"k": "XNor", "ch": [inner, other], "id": None}
     return {"k": "Not", "ch": [{"k": "Xor", "ch": [inner, other], "id": None}], "id": None}
 
+def collision_formula(rng):
+    """operands that share an id or are listed twice: a named sub-formula next to its own negation (Not keeps the name), the same
+    operand twice, unnamed siblings whose leaf ids concatenate to the same string (equal generated ids) - none of this is
+    excluded by the property"""
+    items = list("abcdef")
+    def leaf(x): return {"k": "str", "id": x}
+    def named(i):
+        k = rng.choice(["Any", "All", "AtLeast"])
+        r = {"k": k, "ch": [leaf(x) for x in rng.sample(items, rng.randint(1, 3))], "id": i}
+        if k == "AtLeast": r["v"] = rng.randint(1, 2); r["s"] = None
+        return r
+    pat = rng.choice(["neg-twin", "neg-twin", "twice-leaf", "twice-compound", "concat-siblings"])
+    if pat == "neg-twin":
+        P = named(rng.choice(["P", "q1"]))
+        ch = [P, {"k": "Not", "ch": [json.loads(json.dumps(P))], "id": None}] + [leaf(x) for x in rng.sample(items, rng.randint(0, 2))]
+    elif pat == "twice-leaf":
+        xs = rng.sample(items, rng.randint(2, 3))
+        ch = [leaf(x) for x in xs] + [leaf(xs[0])]
+    elif pat == "twice-compound":
+        P = named(rng.choice(["P", None]))
+        ch = [P, json.loads(json.dumps(P))] + [leaf(x) for x in rng.sample(items, rng.randint(0, 2))]
+    else:
+        k2 = rng.choice(["All", "Any"])
+        ch = [{"k": k2, "ch": [leaf("ab"), leaf("c")], "id": None}, {"k": k2, "ch": [leaf("a"), leaf("bc")], "id": None}] + [leaf(x) for x in rng.sample(["d", "e"], rng.randint(0, 1))]
+    rng.shuffle(ch)
+    k = rng.choice(["All", "All", "Any", "Xor", "XNor", "AtLeast", "AtMost"])
+    top = {"k": k, "ch": ch, "id": rng.choice([None, "T"])}
+    if k in ("AtLeast", "AtMost"): top["v"] = rng.randint(1, len(ch))
+    if k == "AtLeast": top["s"] = None
+    w = rng.random()
+    if w < 0.25: return {"k": "Not", "ch": [top], "id": None}
+    if w < 0.45: return {"k": "Imply", "ch": [leaf("g"), top], "id": None}
+    return top
+
 def run(res, tier, seed):
     rng = random.Random(seed * 1000003 + 4)
     res.rule = RULE
@@ -237,6 +271,8 @@ def run(res, tier, seed):
         asts.append(ast)
     for _ in range(250 if tier == "quick" else 3000):
         asts.append(mixed_formula(rng))
+    for _ in range(120 if tier == "quick" else 1500):
+        asts.append(collision_formula(rng)); res.count("collision_formulas")
     if tier != "quick":
         gram = small_grammar(2, ["a", "b", "c"])
         rng.shuffle(gram)
